@@ -236,6 +236,15 @@ func (g tg) sizeConfig(boundedOnly bool) rag.SizeConfig {
 	}
 	sc.Target = rag.SizeLimit{Value: max(1, v/2), Unit: unit, Type: rag.LimitTypeSoft}
 	sc.Min = rag.SizeLimit{Value: v / 10, Unit: unit, Type: rag.LimitTypeSoft}
+	if g.r.Intn(3) == 0 {
+		// the three limits need not share a unit (every field carries its own):
+		// a soft minimum / target in another unit than the hard maximum
+		ou := []rag.SizeUnit{rag.SizeUnitCharacters, rag.SizeUnitTokens, rag.SizeUnitWords}[g.r.Intn(3)]
+		sc.Min = rag.SizeLimit{Value: 1 + g.r.Intn(max(2, v/4)), Unit: ou, Type: rag.LimitTypeSoft}
+		if g.r.Intn(2) == 0 {
+			sc.Target.Unit = ou
+		}
+	}
 	sc.TokensPerChar = []float64{0.25, 0.25, 0.5, 1, 0, 0.3}[g.r.Intn(6)]
 	sc.SplitAtSemanticBoundaries = g.r.Intn(2) == 0
 	sc.MergeSmallChunks = g.r.Intn(2) == 0
